@@ -77,8 +77,18 @@ PCStep(m, fromP0) ==
      /\ fromP' = fromP0 \o p.out
      /\ outs' = r.out
 
+\* Liveness configuration only (QuietTicks): timers fire when nothing is in flight, so
+\* no message carries an old nonce and a re-registration may reuse any nonce that neither
+\* controller holds; this keeps the fair state space finite without changing behaviour
+\* (nonces are compared for equality only).
+Canon(r, ownNonce, peerNonce) ==
+  IF ~QuietTicks \/ r.st.nonce = ownNonce THEN r
+  ELSE LET k == CHOOSE k \in 1..3 : k # ownNonce /\ k # peerNonce
+       IN [st |-> [r.st EXCEPT !.nonce = k, !.nonceCtr = k],
+           out |-> [i \in 1..Len(r.out) |-> IF r.out[i].m.t = "Register" THEN [r.out[i] EXCEPT !.m.n = k] ELSE r.out[i]]]
+
 CCStep(m, fromC0) ==
-  LET r == CCHandle(cc, m)
+  LET r == Canon(CCHandle(cc, m), cc.nonce, pc.nonce)
   IN /\ cc' = r.st
      /\ c2p' = c2p (+) BagOf(Msgs(r.out, "pc"))
      /\ fromC' = fromC0 \o CReact(Msgs(r.out, "c"), <<>>)
@@ -107,8 +117,8 @@ PCRecvLocal ==                     \* the next endpoint -> PC message is handled
   /\ UNCHANGED <<cc, c2p, fromC, bud>>
 
 TickPC ==
-  /\ ~pc.failed /\ bud.tp < TP /\ TimerGate
-  /\ bud' = [bud EXCEPT !.tp = @ + 1]
+  /\ ~pc.failed /\ (QuietTicks \/ bud.tp < TP) /\ TimerGate
+  /\ bud' = IF QuietTicks THEN bud ELSE [bud EXCEPT !.tp = @ + 1]
   /\ PCStep(Tick, fromP)
   /\ last' = [a |-> "TickPC", m |-> Tick]
   /\ UNCHANGED <<cc, c2p, fromC>>
@@ -127,15 +137,15 @@ CCRecvLocal ==
   /\ UNCHANGED <<pc, p2c, fromP, env, bud>>
 
 TickCC ==
-  /\ ~cc.failed /\ bud.tc < TC /\ TimerGate
-  /\ bud' = [bud EXCEPT !.tc = @ + 1]
+  /\ ~cc.failed /\ (QuietTicks \/ bud.tc < TC) /\ TimerGate
+  /\ bud' = IF QuietTicks THEN bud ELSE [bud EXCEPT !.tc = @ + 1]
   /\ CCStep(Tick, fromC)
   /\ last' = [a |-> "TickCC", m |-> Tick]
   /\ UNCHANGED <<pc, p2c, fromP, env>>
 
 ElapseGap ==                       \* one resend interval passed since the last gap request
-  /\ cc.gapLim /\ bud.g < TG /\ TimerGate
-  /\ bud' = [bud EXCEPT !.g = @ + 1]
+  /\ cc.gapLim /\ (QuietTicks \/ bud.g < TG) /\ TimerGate
+  /\ bud' = IF QuietTicks THEN bud ELSE [bud EXCEPT !.g = @ + 1]
   /\ cc' = [cc EXCEPT !.gapLim = FALSE]
   /\ last' = [a |-> "ElapseGap", m |-> NoMsg] /\ outs' = <<>>
   /\ UNCHANGED <<pc, c2p, p2c, fromP, fromC, env>>
